@@ -54,6 +54,9 @@ def gen_set(rnd):
             L += rnd.choice([['Volume=missing.volume:/d'], ['Mount=type=volume,source=missing.volume,dst=/m'], ['Group=g'], ['ExposeHostPort=x'],
                              ['Network=missing.network'], ['Mount=type=bogus,dst=/m'], ['RemapUsers=bad'], ['[Service]', 'Type=bogus'],
                              ['[Service]', 'KillMode=bogus'], ['PublishPort=1:2:3:4:5'], ['Secret='], ['Pull=bogus']])
+        if rnd.random() < 0.2:
+            # the ordering after the pod is part of the membership, not one of the default dependencies a unit may switch off
+            L += ['[Quadlet]', 'DefaultDependencies=' + rnd.choice(['no', 'false', '0', 'off', 'yes'])]
         fs[s + '.container'] = '\n'.join(L) + '\n'
     # a container that fails beside a healthy member whose name merely resembles it (one service name a prefix or a suffix of the other,
     # through the file names or through ServiceName=): membership is decided per unit, by its whole name
